@@ -88,6 +88,28 @@ def meta_expectation(path, op, value, thread, threads, models_by_name):
         if isinstance(value, (int, float)) and not isinstance(value, bool) and value <= 0:
             return True
         return None
+    if path in ("ovni.rank", "ovni.nranks") and "rank" in meta["ovni"]:
+        # proc.c load_rank: the rank is optional; with a rank, nranks is mandatory, positive, above the rank, and both
+        # agree among the threads of a process
+        mates = [t for t in threads if t is not thread and t["pid"] == thread["pid"] and "rank" in t["meta"]["ovni"]]
+        isint = isinstance(value, int) and not isinstance(value, bool)
+        if path == "ovni.nranks":
+            if op == "delete":
+                return True
+            if not isinstance(value, (int, float)) or isinstance(value, bool):
+                return True                                   # read as 0
+            if abs(value) > 2 ** 30:
+                return None
+            n = int(value)
+            if n <= 0 or meta["ovni"]["rank"] >= n or (mates and n != mates[0]["meta"]["ovni"]["nranks"]):
+                return True
+            return None
+        if op == "delete":
+            return None
+        if isint and abs(value) < 2 ** 30:
+            if value < 0 or value >= meta["ovni"]["nranks"] or (mates and value != mates[0]["meta"]["ovni"]["rank"]):
+                return True
+        return None
     if path.startswith("ovni.require."):
         name = path.split(".")[2]
         mid = [m[0] for m in models_by_name.values() if m[1] == name]
@@ -198,8 +220,12 @@ def run(chk):
                 for c in cuts:
                     b = obs[:c]
                     v, _, _ = L.validate_obs(b)
-                    jobs.append({"k": "t%d_c%d_%d" % (k, ti, c), "cls": "truncate", "key": "truncate", "threads": th, "obs": {ti: b},
-                                 "expect": (True if not v else None), "struct": b})
+                    # a cut on an event boundary leaves a well-formed but incomplete stream: when it removes the
+                    # thread's final OHe the thread never ends, and the trace must not be emulated as ok
+                    ends = [e["off"] for e in evs if e["mcv"] == "OHe"]
+                    incomplete = bool(ends) and c <= ends[-1]
+                    jobs.append({"k": "t%d_c%d_%d" % (k, ti, c), "cls": "truncate", "key": "truncate" if not v else "truncate-at-event-boundary", "threads": th, "obs": {ti: b},
+                                 "expect": (True if (not v or incomplete) else None), "struct": b})
                 # (b) swap of every adjacent pair with different clocks
                 for i in range(len(evs) - 1):
                     if evs[i]["clock"] == evs[i + 1]["clock"]:
